@@ -104,7 +104,15 @@ class UNet(nn.Module):
             )
         )
 
-        x_in_shape = int(filters * (filters_rate ** (down_blocks + stem_blocks)))
+        # The decoder input is the output of the middle block or, without it, of the
+        # last down block.
+        x_in_shape = int(
+            filters
+            * (
+                filters_rate
+                ** (down_blocks + stem_blocks - (0 if self.middle_block else 1))
+            )
+        )
 
         self.dec = Decoder(
             x_in_shape=x_in_shape,
